@@ -130,9 +130,14 @@ pub trait BW6Config: 'static + Eq + Sized {
         }
 
         // f_1(P) = f_(u+1)(P) = f_u(P) * l([u]q, q)(P)
+        // `f_u` is the product over *all* pairs, so it must enter the result once,
+        // not once per chunk: only the first chunk starts from it.
+        let one = <BW6<Self> as Pairing>::TargetField::one();
         let mut f_1 = cfg_chunks_mut!(pairs_1, 4)
-            .map(|pairs| {
-                pairs.iter_mut().fold(f_u, |mut f, (p, coeffs)| {
+            .enumerate()
+            .map(|(chunk, pairs)| {
+                let init = if chunk == 0 { f_u } else { one };
+                pairs.iter_mut().fold(init, |mut f, (p, coeffs)| {
                     BW6::<Self>::ell(&mut f, &coeffs.next().unwrap(), &p.0);
                     f
                 })
@@ -140,7 +145,14 @@ pub trait BW6Config: 'static + Eq + Sized {
             .product::<<BW6<Self> as Pairing>::TargetField>();
 
         let mut f_2 = cfg_chunks_mut!(pairs_2, 4)
-            .map(|pairs| {
+            .enumerate()
+            .map(|(chunk, pairs)| {
+                // as above: the powers of `f_u` are accumulated by the first chunk only
+                let (f_u, f_u_inv) = if chunk == 0 {
+                    (f_u, f_u_inv)
+                } else {
+                    (one, one)
+                };
                 let mut f = f_u;
                 for i in (1..Self::ATE_LOOP_COUNT_2.len()).rev() {
                     f.square_in_place();
